@@ -605,7 +605,8 @@ def overused_constant(source: str, *, root_is_static: bool) -> str:
         )
 
         name = ast.Name(id=variable_name)
-        assign = core.parse(f"{variable_name} = {code}").body[0]
+        # Not core.parse, since its result is cached and the position of assign is set below
+        assign = ast.parse(f"{variable_name} = {code}").body[0]
         assign.lineno = _get_constant_insertion_lineno(best_common_scope)
         assign.col_offset = best_common_scope.body[0].col_offset
         additions.add(assign)
